@@ -25,7 +25,12 @@ def main():
         sys.exit(2)
     if a.replay:
         rec = json.load(open(a.replay))
-        ok, msg = mod.replay(rec)
+        if isinstance(rec.get('case'), dict) and rec['case'].get('harness_history'):
+            from .harness import replay_history
+            died = replay_history(rec['case']['harness_history'], rec['case'].get('variant', 'plain'))
+            ok, msg = (not died), ('still failing: the harness process dies (%r) at the end of the recorded request history' % died if died else 'ok')
+        else:
+            ok, msg = mod.replay(rec)
         print(msg)
         if not ok:
             print('VIOLATION property=%s replay=%s' % (pid, a.replay))
